@@ -13,6 +13,8 @@ import random
 
 from scen import Scn
 import scenario_common as sc
+import mcrapid
+import forced
 
 SUBSETS = [[], ["INVOKE"], ["SHUTDOWN"], ["INVOKE", "SHUTDOWN"]]
 
@@ -126,6 +128,10 @@ def scenarios(ctx):
 
 def run(ctx):
     ctx.level = "model_checking"
+    # E1: the property predicates as invariants of the composite (spec/MC_Rapid.tla)
+    mcrapid.check(ctx, ['RuntimeAfterRegistrations', 'NoEventBeforeAllNext'])
+    # forced schedules through the pause points of /repo (-tags verif)
+    sc.run_families(ctx, forced.scenarios('c03', ('clear-vs-invoke',)), "forced-schedule")
     ctx.assumptions += sc.ASSUME
     sc.run_families(ctx, scenarios(ctx), "initbarrier")
     ctx.coverage["exhaustive"] = False
